@@ -32,5 +32,8 @@ def get_slice(fr, l, r):
                         metadata=fr.metadata,
                         waterfall=fr.check_waterfall(),
                         seed=fr.rng)
+    # Derived frames keep the start time and source of their parent
+    s_fr.t_start = fr.t_start
+    s_fr.source_name = fr.source_name
 
     return s_fr
